@@ -21,6 +21,7 @@ from pydicom.uid import UID, ImplicitVRLittleEndian, ExplicitVRBigEndian
 
 from pynetdicom.acse import ACSE
 from pynetdicom import _config, evt
+from pynetdicom import _verif
 from pynetdicom.dimse import DIMSEServiceProvider
 from pynetdicom.dimse_primitives import (
     C_ECHO,
@@ -225,6 +226,9 @@ class Association(threading.Thread):
 
     def _abort_blocking(self, block: bool = True) -> None:
         """Blocking implementation of Association.abort()"""
+        if _verif.ENABLED:
+            _verif.point("assoc.abort", self)
+
         # Only allow a single abort message to be sent
         if self._sent_abort:
             return
@@ -530,6 +534,9 @@ class Association(threading.Thread):
 
     def kill(self) -> None:
         """Kill the :class:`Association` thread."""
+        if _verif.ENABLED:
+            _verif.point("assoc.kill", self)
+
         # Ensure the reactor is running so it can be exited
         self._reactor_checkpoint.set()
         self._kill = True
@@ -606,6 +613,9 @@ class Association(threading.Thread):
             self._reactor_checkpoint.clear()
             while not self._is_paused:
                 time.sleep(0.0001)
+
+            if _verif.ENABLED:
+                _verif.point("assoc.release", self)
 
             LOGGER.info("Releasing Association")
             self.acse.negotiate_release()
@@ -707,6 +717,9 @@ class Association(threading.Thread):
         """
         self._is_paused = False
         while not self._kill:
+            if _verif.ENABLED:
+                _verif.point("assoc.iter", self)
+
             time.sleep(0.001)
 
             # A race condition may occur if the Acceptor uses the send_*()
